@@ -858,7 +858,7 @@ pub fn wf_of<H: HX>(q: &AnyQ<H>) -> bool {
 /// operations whose sift-up (or predicate loop) can be interrupted between table updates: the post-crash state of
 /// these is known not to be well-formed on the unchanged tree (KNOWN_FINDINGS.json, property C10)
 pub fn crash_key(kind: Kind, op: &Op, cmp: u8) -> String {
-    format!("{}.{}/{}", kind.name(), op.name(), match cmp { 1 => "cmp", 0 => "cb", 3 => "cl", _ => "hk" })
+    format!("{}.{}/{}", kind.name(), op.name(), match cmp { 1 => "cmp", 0 => "cb", 3 => "cl", 4 => "dr", _ => "hk" })
 }
 
 /// C10: for reachable states, every operation, every index k of the user callback that panics: state after
@@ -920,6 +920,7 @@ pub fn crash_stream<H: HX>(sink: &mut Sink, rng: &mut Rng, kinds: &[Kind], ncase
             Op::FromVec(big.clone()), Op::FromIter { lo: nb, hi: Some(nb), xs: big.clone() }, Op::Append(0, small.clone()), Op::Append(300, big.clone()),
             Op::Convert, Op::SerdeRt(kind.other()),
             Op::CloneSwap, Op::CloneFrom(r.below(len + 1), small.clone()), Op::CloneFrom(0, vec![]), Op::CloneFrom(len / 2, big.clone()),
+            Op::Clear, Op::Clear, Op::Drain { forget: false, calls: vec![Call::F] }, Op::Drain { forget: false, calls: vec![] },
         ];
         if pq {
             cands.extend([Op::Pop, Op::PopIf(0, w, true), Op::PopIf(0, w, false), Op::IntoSortedVec]);
@@ -928,14 +929,15 @@ pub fn crash_stream<H: HX>(sink: &mut Sink, rng: &mut Rng, kinds: &[Kind], ncase
         }
         let op = r.pick(&cands).clone();
         // how many comparisons / callbacks does it perform without a fault?
-        let (kc, kb, kh, kl) = {
+        let (kc, kb, kh, kl, kd) = {
             let mut q = qtmp.clone_q();
             let c0 = cmp_count();
             let b0 = CBCOUNT.with(|c| c.get());
             let h0 = HKCOUNT.with(|c| c.get());
             let l0 = CLCOUNT.with(|c| c.get());
+            let d0 = DRCOUNT.with(|c| c.get());
             let _ = std::panic::catch_unwind(AssertUnwindSafe(|| apply(&mut q, &op, Lookup::Owned)));
-            (cmp_count() - c0, CBCOUNT.with(|c| c.get()) - b0, HKCOUNT.with(|c| c.get()) - h0, CLCOUNT.with(|c| c.get()) - l0)
+            (cmp_count() - c0, CBCOUNT.with(|c| c.get()) - b0, HKCOUNT.with(|c| c.get()) - h0, CLCOUNT.with(|c| c.get()) - l0, DRCOUNT.with(|c| c.get()) - d0)
         };
         drop(qtmp);
         let mut plans: Vec<(u8, u64)> = vec![];
@@ -948,6 +950,13 @@ pub fn crash_stream<H: HX>(sink: &mut Sink, rng: &mut Rng, kinds: &[Kind], ncase
         if matches!(op, Op::CloneSwap | Op::CloneFrom(..)) {
             for k in 1..=kl.min(max_k) { plans.push((3, k)); }
             if kl > max_k { plans.push((3, kl)); plans.push((3, r.range(max_k, kl))); }
+        }
+        // `Drop` panics (an item or priority dropped on behalf of the caller: `clear`, `drain`, the elements `retain` rejects,
+        // the clashing pairs of `append` / `extend` / `from(vec)`, the queue `clone_from` overwrites, conversions that consume)
+        if matches!(op, Op::Clear | Op::Drain { forget: false, .. } | Op::Retain(_) | Op::RetainMut(_) | Op::Append(..) | Op::Extend { .. } | Op::FromVec(_) | Op::FromIter { .. }
+            | Op::CloneFrom(..) | Op::IntoSortedVec | Op::IntoAscVec | Op::Push(_)) {
+            for k in 1..=kd.min(max_k) { plans.push((4, k)); }
+            if kd > max_k { plans.push((4, kd)); plans.push((4, r.range(max_k, kd))); }
         }
         if matches!(op, Op::IterMut { forget: true, .. } | Op::Drain { forget: true, .. }) { plans.push((0, u64::MAX)); } // leak, no panic
         for (cmp, k) in plans {
